@@ -234,11 +234,11 @@ var entryPaths = []entryPath{
 		return hd, err, true
 	}},
 	{"message/insecurecleartextkeyset.Read(MemReaderWriter)", func(ks *tinkpb.Keyset, bin []byte) (*keyset.Handle, error, bool) {
-		hd, err := insecurecleartextkeyset.Read(&keyset.MemReaderWriter{Keyset: proto.Clone(ks).(*tinkpb.Keyset)})
+		hd, err := insecurecleartextkeyset.Read(&keyset.MemReaderWriter{Keyset: cloneKeepNil(ks)})
 		return hd, err, true
 	}},
 	{"message/keyset.NewHandleWithNoSecrets", func(ks *tinkpb.Keyset, bin []byte) (*keyset.Handle, error, bool) {
-		hd, err := keyset.NewHandleWithNoSecrets(proto.Clone(ks).(*tinkpb.Keyset))
+		hd, err := keyset.NewHandleWithNoSecrets(cloneKeepNil(ks))
 		return hd, err, true
 	}},
 }
@@ -262,6 +262,7 @@ var rereadPaths = []struct {
 		}
 		proto.Reset(m)
 		proto.Merge(m, ks)
+		keepNil(m, ks)
 		hd, err := insecurecleartextkeyset.Read(rw)
 		return hd, err, true
 	}},
@@ -272,9 +273,27 @@ var rereadPaths = []struct {
 		}
 		proto.Reset(m)
 		proto.Merge(m, ks)
+		keepNil(m, ks)
 		hd, err := keyset.NewHandleWithNoSecrets(m)
 		return hd, err, true
 	}},
+}
+
+// cloneKeepNil copies a keyset message for one submission. proto.Clone / proto.Merge turn a nil element of the
+// repeated key field into an empty message, so that a nil entry - which a hand-built message or a custom
+// keyset.Reader can perfectly well hold - would never reach the code under test; the nils are put back.
+func cloneKeepNil(ks *tinkpb.Keyset) *tinkpb.Keyset {
+	c := proto.Clone(ks).(*tinkpb.Keyset)
+	keepNil(c, ks)
+	return c
+}
+
+func keepNil(dst, src *tinkpb.Keyset) {
+	for i, k := range src.GetKey() {
+		if k == nil && i < len(dst.Key) {
+			dst.Key[i] = nil
+		}
+	}
 }
 
 // slhPublicCopiesAgree: the primary SLH-DSA private key carries its public key twice (the tail of the secret key
